@@ -689,7 +689,15 @@ func (ex *Exec) doCall(fr *frame, st *State, cc *ssa.CallCommon, fnv Val, args [
 		if callee == nil && cc.Value != nil {
 			// a contract written for every function value of this function type ("interface functype:<sig> (params)")
 			if sig, ok := cc.Value.Type().Underlying().(*types.Signature); ok {
-				if c, ok := ex.P.CS.Ifaces["functype:"+sigKey(sig)]; ok {
+				c, ok := ex.P.CS.Ifaces["functype:"+sigKey(sig)]
+				if fr.fn != nil && fr.fn.Pkg != nil {
+					// a contract for the function values called inside one function only ("functype:<sig>@pkg.(*T).caller")
+					at := "@" + fr.fn.Pkg.Pkg.Name() + "." + fr.fn.RelString(fr.fn.Pkg.Pkg)
+					if ca, okAt := ex.P.CS.Ifaces["functype:"+sigKey(sig)+at]; okAt {
+						c, ok = ca, true
+					}
+				}
+				if ok {
 					names := append([]string(nil), c.Params...)
 					var ptypes []types.Type
 					for i := 0; i < sig.Params().Len(); i++ {
